@@ -4,7 +4,7 @@ import struct
 
 from .. import bits as B_
 from ..astutil import aug_form, dotted, effective, method_call
-from ..cfg import canon_test, cfg_of, fact_key, norm, walk_own
+from ..cfg import canon_test, cfg_of, fact_key, nonempty_keys, norm, walk_own
 from ..consteval import UNKNOWN, Scope, fold, fold_in
 from ..mutate import B, M
 from ..symexec import paths_of
@@ -434,8 +434,8 @@ def check(ctx):
     g4 = cfg_of(rd)
     direct = g4.find(lambda n: isinstance(n, ast.Call) and norm(n.func) == 'refresh_done_callback')
     handed = g4.find(lambda n: method_call(n, 'set_callback') and [norm(a) for a in n.args] == ['refresh_done_callback'])
-    ok = len(direct) == 1 and len(handed) == 1 and fact_key('len(extended_elements) > 0', False) in g4.fact_keys_at(direct[0][0]) and \
-        fact_key('len(extended_elements) > 0', True) in g4.fact_keys_at(handed[0][0])
+    ok = len(direct) == 1 and len(handed) == 1 and bool(nonempty_keys('extended_elements', False) & set(g4.fact_keys_at(direct[0][0]))) and \
+        bool(nonempty_keys('extended_elements', True) & set(g4.fact_keys_at(handed[0][0])))
     ctx.inst('R9', rd, 'extended-pass', ok, 'completion is called directly only when no element is extended, otherwise handed to the extended-type fetcher')
     tf = [c for c in walk_own(rt.node) if isinstance(c, ast.Call) and dotted(c.func) == 'TocFetcher']
     ctx.inst('R9', rt, 'fetcher-completion', len(tf) == 1 and len(tf[0].args) >= 5 and norm(tf[0].args[4]) == 'refresh_done' and norm(tf[0].args[1]) == 'ParamTocElement'
